@@ -480,3 +480,6 @@ def run(run, tier, seed, replay=None):
                     muts.append(m); meta.append(dict(cls=cls, base=k, top=site[0] == base["top"], site_kind=B.site_kind(base, site)))
     n2 = _mutant_stream(run, "bundle-mutants", "bdesign", muts, meta, B.MUTATORS, B.c_bdesign, "chk_c02b", "classes_b", None)
     run.coverage["traces_validated_against_impl"] = n1 + n2 + len(bases) + len(bbases)
+    # C02E: the checked pipeline model (coq Model/C02EPipeline.v) against the implementation on the core designs and mutants
+    from . import c02e
+    c02e.run_tie(run, tier, seed, bases, per_class)
